@@ -222,6 +222,11 @@ func (h *H) oneHistory(idx int) {
 
 // replayHist evaluates the recorded steps (observation steps start with '?').
 func replayHist(lines []string) string {
+	for _, s := range lines {
+		if s == "#base" || strings.HasPrefix(s, "!") {
+			return runSteps(lines) // a soak history (round6.go)
+		}
+	}
 	env := newEnv()
 	var out []string
 	for _, s := range lines {
